@@ -1,6 +1,7 @@
 import CalVerif.Prim.Wire
 import CalVerif.Model.Reader
 import CalVerif.Model.Auto
+import CalVerif.Model.DataConv
 /-! Driver for C07: runs a call history through the reader state machine with a *symbolic* file
     (every `FileSem` function returns a term naming itself and its arguments) and prints, per call,
     the state in force before it and the symbolic result. The harness evaluates the symbolic result
@@ -80,6 +81,64 @@ def handleAuto (ws : List String) : Option String :=
       | .cannotDetect => "cannot"
   | _ => none
 
+/-! `dconv <cell>`: the conversion `DataRef -> Data` and the `DataType` observations of both sides.
+    (texts travel as the hex of their UTF-8 bytes and are opaque to the conversion; the empty text is `-`)
+    cell = `i:<int>` | `f:<bits>` | `s:<hex>` | `h:<hex>` (SharedString) | `b:<0|1>` | `d:<bits>:<dur>:<1904>` |
+           `t:<hex>` (DateTimeIso) | `u:<hex>` (DurationIso) | `e:<k>` | `-`
+    reply = `<owned cell> <view of the borrowed cell> <view of the owned cell>`; a view lists the nine `is_*` flags, the
+    eight `get_*` results and, for `as_string` / `as_i64` / `as_f64`, whether the result is `None` (n), a value computed
+    without a parser (v) or the result of a parser on the text (p) -/
+
+open DataConv in
+def parseCell (w : String) : Option DataRef :=
+  match w.splitOn ":" with
+  | ["-"] => some .empty
+  | ["i", v] => v.toInt?.map .int
+  | ["f", b] => b.toNat?.map .float
+  | ["s", h] => some (.string h.toList)
+  | ["h", h] => some (.sharedString h.toList)
+  | ["b", v] => some (.bool (v == "1"))
+  | ["d", b, du, n] => b.toNat?.map fun bits => .dateTime ⟨bits, du == "1", n == "1"⟩
+  | ["t", h] => some (.dateTimeIso h.toList)
+  | ["u", h] => some (.durationIso h.toList)
+  | ["e", k] => k.toNat?.map .error
+  | _ => none
+
+open DataConv in
+def showData : Data → String
+  | .empty => "-"
+  | .int v => s!"i:{v}"
+  | .float b => s!"f:{b}"
+  | .string s => "s:" ++ String.ofList s
+  | .bool b => if b then "b:1" else "b:0"
+  | .dateTime d => s!"d:{d.bits}:{if d.isDuration then 1 else 0}:{if d.is1904 then 1 else 0}"
+  | .dateTimeIso s => "t:" ++ String.ofList s
+  | .durationIso s => "u:" ++ String.ofList s
+  | .error k => s!"e:{k}"
+
+open DataConv in
+def showView (v : View) (strDep : Bool) : String :=
+  let b (x : Bool) := if x then "1" else "0"
+  let o {α : Type} (f : α → String) (x : Option α) := match x with | some a => f a | none => "-"
+  let hx (s : Str) := "x" ++ String.ofList s
+  let k {α : Type} (x : Option α) := if strDep then "p" else if x.isSome then "v" else "n"
+  let flags := String.join [b v.isEmpty, b v.isInt, b v.isFloat, b v.isBool, b v.isString, b v.isDurationIso,
+    b v.isDateTime, b v.isDateTimeIso, b v.isError]
+  let edt (d : Edt) := s!"{d.bits}:{b d.isDuration}:{b d.is1904}"
+  s!"{flags},gi={o toString v.getInt},gf={o toString v.getFloat},gb={o b v.getBool},gs={o hx v.getString}," ++
+  s!"gd={o edt v.getDateTime},gdi={o hx v.getDateTimeIso},gdu={o hx v.getDurationIso},ge={o toString v.getError}," ++
+  s!"as={b v.asString.isSome}{k v.asI64}{k v.asF64}"
+
+open DataConv in
+def handleDconv (w : String) : String :=
+  match parseCell w with
+  | none => "bad-op"
+  | some c =>
+    -- the parsers' results are not looked at (only whether a parser is consulted): any `Std` will do
+    let σ : Std := ⟨fun _ => [], fun _ => [], fun _ => 0, fun _ => 0, fun _ => 0, fun _ => none, fun _ => none⟩
+    let strDep := match c with | .string _ | .sharedString _ => true | _ => false
+    s!"{showData (toData c)} {showView (viewRef σ c) strDep} {showView (viewData σ (toData c)) strDep}"
+
 def handle (line : String) : String :=
   match Wire.words line with
   | ["hist", kind, sheets, ops] =>
@@ -87,6 +146,7 @@ def handle (line : String) : String :=
     match (ops.splitOn ";").mapM parseOp with
     | some l => ";".intercalate (runSym (symFile (kind = "eager") names) {} l)
     | none => "bad-op"
+  | ["dconv", w] => handleDconv w
   | ws => (handleAuto ws).getD "bad-op"
 
 def main : IO Unit := Wire.run handle
